@@ -479,8 +479,9 @@ let model_case (toks : string list) : string =
     let (inner, h) = parse_rhist rest in
     "outs=" ^ list_str string_of_rout (ApiCheck.api_rhist inner h)
   | "comp" :: rest ->
-    let (s, _) = parse_src rest in
-    let (((c10, c00), k10), k00) = ApiCheck.api_comp s in
+    let (s, r1) = parse_src rest in
+    let (ws, _) = parse_warm r1 in
+    let (((c10, c00), k10), k00) = ApiCheck.api_comp s ws in
     Printf.sprintf "src=%s e10=%s e00=%s nk=%d %s %s" (hex_of_text (Tree.source s)) (string_of_events c10) (string_of_events c00)
       (L.length k10)
       (S.concat " " (L.mapi (fun i e -> Printf.sprintf "k%d.e10=%s" i (string_of_events e)) k10))
